@@ -87,6 +87,11 @@ def a_nodename(kind):
     return kind if kind.startswith('verbatim') else 'verb'
 
 
+def plain(x):
+    """DOM Text / Token objects are str subclasses that drag the whole document along"""
+    return x.encode('utf-8', 'surrogatepass').decode('utf-8', 'surrogatepass')
+
+
 def parse_doc(src, limit=20.0):
     from plasTeX.TeX import TeX
     state.reset()
@@ -108,10 +113,10 @@ def a_observe(kind, d, bodies):
         if not kind.startswith('verbatim'):
             for n in nodes:
                 try:
-                    srcs.append(str(n.source))
+                    srcs.append(plain(str(n.source)))
                 except Exception as e:
                     srcs.append('raises:%s' % type(e).__name__)
-        return [str(c) for c in contents], str(doc.textContent), len(doc.context.contexts), srcs
+        return [plain(c) for c in contents], plain(doc.textContent), len(doc.context.contexts), srcs
     except core.Timeout:
         return 'timeout'
     except Exception as e:
@@ -180,6 +185,7 @@ def a_bodies(block):
 
 
 BATCH = 250
+ABANDON = 25       # a block that has produced this many violations is not explored further (the run fails anyway)
 
 
 def a_run_block(block):
@@ -199,6 +205,8 @@ def a_run_block(block):
                 rep.sample({'kind': kind, 'delimiter': d, 'body': batch[-1], 'textContent': obs[0][-1]})
         else:
             for b in batch:
+                if rep.nviolations >= ABANDON:
+                    break
                 v, fid, e, o, detail = a_judge(kind, d, b)
                 rep.case(key=(kind, d, b), nontrivial=True, outcome=(kind, d, repr(o)))
                 case = {'part': 'a', 'kind': kind, 'd': d, 'body': b}
@@ -224,6 +232,10 @@ def a_run_block(block):
         batch.append(body)
         if len(batch) >= BATCH:
             flush()
+            if rep.nviolations >= ABANDON:
+                rep.count('blocks_abandoned_after_%d_violations' % ABANDON)
+                del batch[:]
+                break
     flush()
     return rep.close_block()
 
@@ -309,17 +321,18 @@ def as_tree(x):
     return x if isinstance(x, str) else tuple(as_tree(c) for c in x)
 
 
-def trees(d):
-    """all trees of depth exactly d: unary nodes over every tree of depth d-1; binary nodes over every pair of
-    leaves (d == 2) or (deep child of depth d-1, sibling in SIBS) in both orders (d > 2)"""
+def trees_op(d, op):
+    """trees of depth exactly d whose root is `op` ('leaf' for d == 1), in enumeration order: unary nodes over every
+    tree of depth d-1; binary nodes over every pair of leaves (d == 2) or (deep child of depth d-1, sibling in SIBS)
+    in both orders (d > 2)"""
     if d == 1:
-        for l in LEAVES:
-            yield l
-        return
-    for op in UNARY:
+        if op == 'leaf':
+            for l in LEAVES:
+                yield l
+    elif op in UNARY:
         for c in trees(d - 1):
             yield (op, c)
-    for op in BINARY:
+    elif op in BINARY:
         if d == 2:
             for a in LEAVES:
                 for b in LEAVES:
@@ -331,11 +344,22 @@ def trees(d):
                     yield (op, s, c)
 
 
-def trees_op(d, op):
-    """trees of depth exactly d whose root is `op` ('leaf' for d == 1), in enumeration order"""
-    for t in trees(d):
-        if (op == 'leaf' and isinstance(t, str)) or (not isinstance(t, str) and t[0] == op):
+def trees(d):
+    """all trees of depth exactly d"""
+    for op in (['leaf'] if d == 1 else UNARY + BINARY):
+        for t in trees_op(d, op):
             yield t
+
+
+def count_op(d, op):
+    n = {1: len(LEAVES)}
+    for k in range(2, d):
+        n[k] = len(UNARY) * n[k - 1] + len(BINARY) * (len(LEAVES) ** 2 if k == 2 else 2 * len(SIBS) * n[k - 1])
+    if d == 1:
+        return len(LEAVES) if op == 'leaf' else 0
+    if op in UNARY:
+        return n[d - 1]
+    return len(LEAVES) ** 2 if d == 2 else 2 * len(SIBS) * n[d - 1]
 
 
 def wrap(ctx, f):
@@ -408,7 +432,7 @@ def b_observe(ctx, ts):
                     out.append(('no math node', None))
                     continue
                 n = ms[0]
-            out.append((toks(str(n.source)), toks(str(n.mathjax_source))))
+            out.append((toks(plain(str(n.source))), toks(plain(str(n.mathjax_source)))))
         return out, len(doc.context.contexts)
     except core.Timeout:
         return 'timeout'
@@ -495,7 +519,7 @@ def b_run_block(block):
         record(t, v, fids, e, o, detail, (ctx, repr(o)))
 
     def run(batch, bisect):
-        if not batch:
+        if not batch or rep.nviolations >= ABANDON:
             return
         if len(batch) == 1:
             single(batch[0])
@@ -520,12 +544,15 @@ def b_run_block(block):
             run(batch[h:], True)
         else:
             for t in batch:
-                single(t)
+                if rep.nviolations < ABANDON:
+                    single(t)
 
     for ch in core.chunks(normal, BATCH_B):
         run(ch, True)
     for ch in core.chunks(suspects, BATCH_B):
         run(ch, False)
+    if rep.nviolations >= ABANDON:
+        rep.count('blocks_abandoned_after_%d_violations' % ABANDON)
     return rep.close_block()
 
 
@@ -631,14 +658,15 @@ def run(tier, seed, rep):
         blocks.append(('b', ctx, 1, 'leaf', 0, len(LEAVES)))
         for d in range(2, dmax + 1):
             for op in UNARY + BINARY:
-                n = sum(1 for _ in trees_op(d, op))
+                n = count_op(d, op)
                 for lo in range(0, n, 2000):
                     blocks.append(('b', ctx, d, op, lo, min(n, lo + 2000)))
     bounds['b_formulas'] = {'max_depth': D, 'contexts': CONTEXTS, 'extra_context_ddollar_max_depth': 3,
                             'leaves': len(LEAVES), 'unary': len(UNARY), 'binary': len(BINARY)}
     blocks = core.rotate(blocks, seed)
     core.merge_all(run_block, blocks, rep, chunksize=1)
-    return {'exhaustive': True, 'bounds': bounds, 'blocks': len(blocks),
+    abandoned = rep.counters.get('blocks_abandoned_after_%d_violations' % ABANDON, 0)
+    return {'exhaustive': not abandoned, 'bounds': bounds, 'blocks': len(blocks),
             'floors': {'evaluations': 900000 if quick else 15000000, 'a_with_partial_end_marker': 100000,
                        'b_op_arr': 1000, 'b_op_mbox': 1000, 'b_op_zzm': 1000, 'b_op_sqrtn': 1000}}
 
